@@ -33,6 +33,13 @@ fn collect(schema: &Value, strings: &mut BTreeSet<String>, numbers: &mut BTreeSe
                                 if k == "properties" {
                                     strings.insert(pk.clone());
                                 }
+                                if k == "patternProperties" {
+                                    // a key the pattern plausibly matches: its literal characters
+                                    let lit: String = pk.chars().filter(|c| c.is_alphanumeric()).collect();
+                                    if !lit.is_empty() && lit.len() <= 4 {
+                                        strings.insert(format!("{lit}1"));
+                                    }
+                                }
                                 collect(pv, strings, numbers, lens, formats, depth + 1);
                             }
                         }
@@ -562,7 +569,7 @@ pub fn enumerate_chars(f: &Factory, schema: &Value, root: &Matcher, max_body: us
 }
 
 fn schemas(ctx: &Ctx) -> Vec<Value> {
-    let mut v = jsongen::all_schemas(ctx.quick());
+    let mut v = jsongen::all_schemas_x(ctx.quick());
     for it in corpus::json_items() {
         if let GrammarSpec::Json(s) = it.g {
             v.push(s);
